@@ -187,30 +187,30 @@ Proof. split; reflexivity. Qed.
 
 Definition ex_uuid : list N := [1; 2; 3; 4; 5; 6; 7; 8; 9; 10; 11; 12; 13; 14; 15; 255].
 
-Definition ex_msgs : list msg :=
-  [MEntitySpawn ex_uuid; MEntityParented ex_uuid (rev ex_uuid); MEntityDelete ex_uuid;
-   MComponentUpdated ex_uuid [97; 58; 58; 206; 188] [0; 255; 3];
-   MStandardMaterialUpdated ex_uuid []; MMeshUpdated ex_uuid [104; 116; 116; 112];
-   MImageUpdated ex_uuid []; MAudioUpdated ex_uuid [47]; MPromoteToHost;
-   MNewHost (IpV4 [127; 0; 0; 1]) 65535 0 18446744073709551615;
-   MNewHost (IpV6 [0; 0; 0; 0; 0; 0; 0; 0; 0; 0; 0; 0; 0; 0; 0; 1]) 1 2 3;
-   MRequestInitialSync; MFinishedInitialSync].
+Definition ex_wmsgs : list wmsg :=
+  [W_EntitySpawn ex_uuid; W_EntityParented ex_uuid (rev ex_uuid); W_EntityDelete ex_uuid;
+   W_ComponentUpdated ex_uuid [97; 58; 58; 206; 188] [0; 255; 3];
+   W_StandardMaterialUpdated ex_uuid []; W_MeshUpdated ex_uuid [104; 116; 116; 112];
+   W_ImageUpdated ex_uuid []; W_AudioUpdated ex_uuid [47]; W_PromoteToHost;
+   W_NewHost (IpV4 [127; 0; 0; 1]) 65535 0 18446744073709551615;
+   W_NewHost (IpV6 [0; 0; 0; 0; 0; 0; 0; 0; 0; 0; 0; 0; 0; 0; 0; 1]) 1 2 3;
+   W_RequestInitialSync; W_FinishedInitialSync].
 
-Example ex_msgs_wf : Forall wf_msg ex_msgs.
+Example ex_msgs_wf : Forall wf_msg ex_wmsgs.
 Proof. repeat constructor. Qed.
 
 Example ex_msgs_roundtrip :
-  map (fun m => match encode m with Some bs => decode (bs ++ [1; 2; 3]) | None => None end) ex_msgs
-  = map Some ex_msgs.
+  map (fun m => match encode m with Some bs => decode (bs ++ [1; 2; 3]) | None => None end) ex_wmsgs
+  = map Some ex_wmsgs.
 Proof. vm_compute. reflexivity. Qed.
 
 (* the wire form of two messages, as observed on the real code *)
 Example ex_spawn_bytes :
-  encode (MEntitySpawn ex_uuid) = Some ([0; 0; 0; 0; 16; 0; 0; 0; 0; 0; 0; 0] ++ ex_uuid).
+  encode (W_EntitySpawn ex_uuid) = Some ([0; 0; 0; 0; 16; 0; 0; 0; 0; 0; 0; 0] ++ ex_uuid).
 Proof. vm_compute. reflexivity. Qed.
 
 Example ex_newhost_bytes :
-  encode (MNewHost (IpV4 [146; 115; 155; 22]) 0 65535 13312586)
+  encode (W_NewHost (IpV4 [146; 115; 155; 22]) 0 65535 13312586)
   = Some [9; 0; 0; 0; 0; 0; 0; 0; 0; 0; 0; 0; 146; 115; 155; 22; 0; 0; 255; 255; 74; 34; 203; 0; 0; 0; 0; 0].
 Proof. vm_compute. reflexivity. Qed.
 
